@@ -66,6 +66,11 @@ MODELS = [
 ]
 
 
+def _with_iter_models():
+    import itermodels
+    return MODELS + itermodels.MODELS
+
+
 def none():
     return sym.Adt("Option", "None", [])
 
@@ -384,6 +389,16 @@ def check_path(q, r, b0, bidx, fields, shape, sel_f, sel_b, call, raw_args, nid,
         return ("terminator-left-block-open", "selected_block=%s after a terminator" % bl1)
     if ok and call == 1 and f1 is not None:
         return ("end_function-left-function-open", "selected_function=%s after end_function" % f1)
+    if ok and call == 1 and sel_f is not None:
+        # the OpFunctionEnd goes into the SELECTED function; every other function stays as it was
+        ei = fields["Function"].index("end")
+        f0s = b0.fields[bidx["module"]].fields[fields["Module"].index("functions")]
+        for k_, (fa, fb) in enumerate(zip(f0s.items, funcs.items)):
+            if k_ == sel_f:
+                if not (isinstance(fb.fields[ei], sym.Adt) and fb.fields[ei].variant == "Some") or same(fb.fields[ei], fa.fields[ei]):
+                    return ("end_function-wrong-function", "function %d was selected but did not receive the OpFunctionEnd" % sel_f)
+            elif not same(fa, fb):
+                return ("end_function-wrong-function", "end_function with function %d selected changed function %d" % (sel_f, k_))
     # id discipline: the counter never goes back; allocating calls return the old counter and advance it by one
     n1 = b1.fields[bidx["next_id"]]
     st, m = q.check(r.pc + [z3.ULT(n1, nid)], "counter-monotone")
